@@ -147,6 +147,45 @@ def edited_roundtrip(sym, unified_before, unified_after, additional_before, addi
     sym.check("third-dump-identical", third.dumps() == text2)
 
 
+def load_twice(sym, edit):
+    """what is read from a text depends on the text alone: the same text is loaded again after the first loaded object was edited in
+    place (its checksum dictionary and variant list are the caller's to change) - in the same process"""
+    im = Images()
+    im.compose.id = "Fedora-20-20131212.0"
+    im.compose.type = "production"
+    im.compose.date = "20131212"
+    im.compose.respin = 0
+    o = {"volume_id": [False], "two_checksums": [True], "implant": [False], "unified": [True], "additional": [["Workstation", "Client"]]}
+    img = make_image(sym, im, 0, o)
+    want = dict((k, getattr(img, k)) for k in ATTRS)
+    want["checksums"] = dict(img.checksums)
+    want["additional_variants"] = list(img.additional_variants)
+    try:
+        im.add("Server", "x86_64", img)
+        text = im.dumps()
+    except (ValueError, TypeError):
+        return
+    sym.cover("written")
+    first = Images()
+    first.loads(text)
+    got = list(first.images["Server"]["x86_64"])[0]
+    if edit == "in-place":
+        got.checksums["sha1"] = sym.str("extra_sum", 3)
+        got.additional_variants.append("Extra")
+    elif edit == "api":
+        got.add_checksum(None, "sha1", sym.str("extra_sum", 3, minlen=1))
+        got.additional_variants.append("Extra")
+    sym.cover("reloaded")
+    second = Images()
+    second.loads(text)
+    sym.cover("rewritten")
+    back = list(second.images["Server"]["x86_64"])
+    sym.check("one-image", len(back) == 1)
+    for k in ATTRS:
+        sym.check("second-load-%s-as-in-the-text" % k, sym.same(getattr(back[0], k), want[k]))
+    sym.check("second-load-writes-the-same-text", second.dumps() == text)
+
+
 def _opts(k):
     """rotating choice of the optional parts of the three pool images"""
     bit = lambda n: [bool((k >> (n + j)) & 1) for j in range(3)]
@@ -165,11 +204,13 @@ def jobs(tier, seed):
     for ub, ua, ab, aa in ((True, False, ["Client", "Server"], []), (False, True, [], ["Workstation"]), (True, True, ["Client"], ["Workstation", "Client"]),
                            (False, False, [], [])):
         out.append({"harness": "edited_roundtrip", "params": {"unified_before": ub, "unified_after": ua, "additional_before": ab, "additional_after": aa}})
+    for edit in ("in-place", "api", "none"):
+        out.append({"harness": "load_twice", "params": {"edit": edit}})
     return out
 
 
 META = {
-    "expected_covers": {"roundtrip": ["written", "reloaded", "rewritten"], "edited_roundtrip": ["written", "reloaded", "rewritten"]},
+    "expected_covers": {"roundtrip": ["written", "reloaded", "rewritten"], "edited_roundtrip": ["written", "reloaded", "rewritten"], "load_twice": ["written", "reloaded", "rewritten"]},
     "assumptions": [
         "JSON text layer replaced by the DocText stub (contract in psx/stubs.py)",
         "cell layouts from the catalogue in harness/C02.py (<= 3 variants/arches, <= 3 images per cell, one image object filed under several cells); "
